@@ -452,6 +452,18 @@ class C11(Check):
             cases.append(one([rx(1, Z, B), rx(2, B, Z), rx(1, Z, B), rx(3, A, Z), rx(2, G, A), rx(1, A, G), rx(3, A, B, kind="raw6", key=0), rx(2, B, A, kind="raw6", key=0),
                               rx(3, A, B, kind="raw6", key=0), rx(1, A, B, pay=202), rx(2, B, A, pay=203), rx(1, A, B, pay=203), rx(1, A, BCAST, pay=202),
                               rx(1, A, BCAST, pay=203)], bufs=bufs))
+        # (1,3) the same-port drop entry (10 s / 10 s) must be gone when its destination has moved on, however busy the sender keeps it; also
+        #       a key-0 conversation must not absorb other conversations after a move
+        sw0 = {"op": "sweep", "sw": 0}
+        for base in (0, 300):
+            ops = [rx(1, B, BCAST), rx(1, A, B)]
+            for k in range(4):
+                ops += [{"op": "adv", "ms": 4000}, sw0, rx(1, A, B)]
+                if k == 1: ops += [rx(2, B, BCAST)]
+            d = one(ops, bufs=1); d["switches"][0]["base"] = base; cases.append(d)
+            d = one([rx(3, B, A, key=0), rx(1, A, B, key=0), rx(1, A, B, key=0), rx(2, B, BCAST), rx(1, A, B, key=257), rx(1, A, B, key=0),
+                     rx(1, A, B, kind="arp", key=0), rx(3, B, BCAST), rx(1, A, B, kind="arp", key=256)], bufs=1)
+            d["switches"][0]["base"] = base; cases.append(d)
         # (5) bursts: several frames reach the switch before the control channel moves — several packet-ins in one read at the controller, several
         #     answers in one read at the switch, more misses than buffers; judged by the oracle (ideal bridge), frame by frame
         f = lambda port, src, dst, pay, kind="udp", key=1: {"port": port, "src": src, "dst": dst, "kind": kind, "key": key, "pay": pay}
@@ -494,6 +506,7 @@ class C11(Check):
         rx = self.rx
         hosts = [0x0a, 0x0b, 0x0c][:rng.randint(2, 3)]
         loc = {h: i + 1 for i, h in enumerate(hosts)}
+        if rng.random() < 0.3: loc = {h: 1 for h in hosts}         # everybody behind one port at first (same-port drop entries)
         nports = 4
         ops, t = [], 0
         for h in hosts:
@@ -513,7 +526,7 @@ class C11(Check):
             else:
                 a = rng.choice(hosts); b = rng.choice([h for h in hosts if h != a])
                 ops.append(rx(loc[a], a, b, key=rng.choice([1, 2])))
-        return {"transparent": False, "switches": [{"ports": nports, "bufs": rng.randint(0, 2)}], "links": [], "ops": ops}
+        return {"transparent": False, "switches": [{"ports": nports, "bufs": rng.randint(0, 2), "base": rng.choice([0, 254, 32765])}], "links": [], "ops": ops}
 
     def random_case(self, rng, maxlen=200):
         if rng.random() < 0.2: return self.random_keepalive(rng)
